@@ -214,6 +214,43 @@ fn main() {
             }
         }
     }
+    // phase 4: long strings -- lengths around the powers of two a size threshold would sit at (a
+    // fast path for short strings, a chunked table); a is a repeated pattern, b is a with one
+    // disturbance at the start, in the middle or at the end, or another long string
+    {
+        let lens = tu_verif::enumerate::threshold_lengths(run.pick(8, 10));
+        let patterns: [&[&str]; 3] = [&["a", "b"], &["a", " ", "ä"], &["e\u{301}", "a"]];
+        run.bounds.insert("long_phase".into(), json!(format!("lengths {lens:?} x 3 repeated patterns x (equal, one symbol replaced / deleted / inserted at start, middle, end, the pattern shifted by one) x all flags")));
+        let mut unit4 = base3 + xy_chars.len() * (xy_chars.len() - 1) * xy_all.len();
+        for n in lens {
+            for pat in patterns {
+                unit4 += 1;
+                if !run.unit((unit4 - 1) as u64) {
+                    continue;
+                }
+                let syms: Vec<&str> = (0..n).map(|i| pat[i % pat.len()]).collect();
+                let a: String = syms.concat();
+                let mut bs: Vec<String> = vec![a.clone(), (1..=n).map(|i| pat[i % pat.len()]).collect()];
+                for pos in [0, n / 2, n - 1] {
+                    let mut r = syms.clone();
+                    r[pos] = "x";
+                    bs.push(r.concat());
+                    let mut d = syms.clone();
+                    d.remove(pos);
+                    bs.push(d.concat());
+                    let mut i = syms.clone();
+                    i.insert(pos, "x");
+                    bs.push(i.concat());
+                }
+                for b in &bs {
+                    for flags in 0..8u32 {
+                        check(&mut run, &a, b, flags & 1 != 0, flags & 2 != 0, flags & 4 != 0);
+                        check(&mut run, b, &a, flags & 1 != 0, flags & 2 != 0, flags & 4 != 0);
+                    }
+                }
+            }
+        }
+    }
     for (ia, a) in all.iter().enumerate() {
         if !run.unit(ia as u64) {
             continue;
